@@ -10,6 +10,9 @@ CHECKS = {
          "trusts the Go race detector and reflection-based read-only snapshots; objects a config merely refers to are compared by identity", "§3 C19"),
 }
 NOT_YET = {}
+CHECKS["C01"] = ("exploration", "runtime monitoring: differential trace monitor (interpreter vs compiler) over generated programs in supervised children",
+  "By-construction-valid generated programs (all enabled features, NaN-canonicalised, fuel-terminated) with PRNG call scripts are run on both engines; a monitor compares canonical traces (result bits, trap kind, host-call log, memory/global/table digests after every step) event by event; crashes and internal errors are violations, stack exhaustion is inconclusive. Held on the programs explored only.",
+  "trusts the generator's NaN canonicalisation and fuel; errors shared by both engines are invisible here (C05 covers numerics); arm64 back end not executed", "§3 C01")
 
 def main():
     props = [json.loads(l) for l in open(os.path.join(HERE, "properties.jsonl"))]
